@@ -3,7 +3,7 @@ from registry_common import COMMON_ASSUME
 ENTRY = dict(
         title="Frame-version announcements trigger exactly the needed refreshes",
         design_ref="DESIGN.md section 6 / C15",
-        prop_modules=["C15", "C15Overlap"],
+        prop_modules=["C15", "C15Overlap", "C15Devices"],
         technique="Lean 4 theorems about the announcement handler in ANY device state (hence over all announcement histories) "
                   "+ correspondence: sensor-data / regulator-data frames into a real EcoMAX via handle_frame, queue observed after quiescence "
                   "+ Lean judge C15.spec on what the implementation queued",
@@ -22,6 +22,8 @@ ENTRY = dict(
                    "every code 0..255); asyncio task scheduling between one frame and quiescence is exercised, not modelled (one announcement at a time).",
         clauses={
             "changed version of a supported request kind -> one refresh request queued, version recorded": "theorem (queued_iff, queued_nodup, recorded_after, announce_exact)",
+            "queued TO THAT DEVICE": "theorem (Props/C15Devices.lean over the device-system model Sys = address -> St with ONE shared queue of (kind, recipient) frames: queued_to_announcing_device — in every history over any number of devices every frame queued by an event carries the address of the device the event happened at; device_state_is_own_history / device_frames_are_own_history — a device's record and its refreshes are those of the single-device machine on its own events; holdsSys) + correspondence (EcoMAX 0x45 and EcoSTER 0x51 in one process on one queue, the same kinds announced to both in turn, recipients observed; judge C15.specSys on the shared queue)",
+            "the record after a whole history": "theorem (recorded_history: after ANY history of announcements and frame_errors dispatches the record of k is the version of the last announcement that carried k while it was a supported request kind — histRecord reads it off the history alone; recorded_is_last_announced)",
             "unchanged version queues nothing": "theorem (queued_iff, repeat_queues_nothing)",
             "unknown kinds queue nothing": "theorem (queued_only_if, never_queues_unknown_or_unsupported) + table (requestKinds_known)",
             "kinds the device did not answer during set-up queue nothing": "theorem (queued_iff, queued_only_if) + table (setup_kinds_are_request_kinds)",
